@@ -1,5 +1,5 @@
 """Source facts regenerated from /repo on every run, and the theorems re-checked over them."""
-import os, shutil, subprocess
+import os, re, shutil, subprocess
 
 THEOREMS = {
     "C06": ["db_methods_locked", "db_methods_present", "render_path_readonly"],
@@ -20,7 +20,17 @@ def check(prop, verif, coq, repo, build, goenv, work, vh):
     p = subprocess.run([vh, "-prop", "SRCFACTS", "-work", d, "-verif", verif], cwd=verif, env=goenv, capture_output=True, text=True, timeout=300)
     if p.returncode != 0 or not os.path.exists(os.path.join(d, "SrcFacts.v")):
         return False, "source-fact extraction failed: " + (p.stdout + p.stderr)[-1500:], THEOREMS.get(prop, [])
-    shutil.copy(os.path.join(coq, "Gen", "SrcFactsCheck.v"), os.path.join(d, "SrcFactsCheck.v"))
+    # only this property's theorems are re-checked (the definitions stay): a fact that no longer
+    # holds alarms the properties that rely on it, not every property that has source facts
+    text = open(os.path.join(coq, "Gen", "SrcFactsCheck.v")).read()
+    keep = set(THEOREMS.get(prop, []))
+    def strip(m):
+        return m.group(0) if m.group(1) in keep else "(* theorem %s: not among the source facts of %s *)\n" % (m.group(1), prop)
+    text = re.sub(r"(?ms)^Theorem (\w+)\b.*?^Proof\..*?Qed\.\n", strip, text)
+    missing = [t for t in keep if ("Theorem %s " % t) not in text and ("Theorem %s:" % t) not in text]
+    if missing:
+        return False, "source-fact theorems not found in Gen/SrcFactsCheck.v: %s" % missing, THEOREMS.get(prop, [])
+    open(os.path.join(d, "SrcFactsCheck.v"), "w").write(text)
     for f in ("SrcFacts.v", "SrcFactsCheck.v"):
         p = subprocess.run(["timeout", "300", "coqc", "-Q", ".", "Gen", f], cwd=d, capture_output=True, text=True)
         if p.returncode != 0:
